@@ -173,6 +173,14 @@ class Gen:
                 # a gate whose matrix is Clifford while the pieces it decomposes into are not (T-like phases
                 # around an ISWAP): not something a stabilizer simulator can run
                 self.features.add("clifford-only-as-product")
+                which = self.t.draw(3, "product-gate")
+                if which == 1:
+                    # a Clifford matrix given as a matrix: only its (non-Clifford) synthesis is available to a simulator
+                    m = cirq.unitary(self._pick([cirq.CZ, cirq.CNOT, cirq.ISWAP], "matrix-of"))
+                    return cirq.MatrixGate(m).on(a, b)
+                if which == 2 and len(self.qudits) >= 3:
+                    third = self._pick([x for x in self.qudits if x not in (a, b)], "q3")
+                    return cirq.ControlledGate(cirq.SWAP ** 2).on(third, a, b)
                 return cirq.PhasedISwapPowGate(phase_exponent=self._pick([0.25, -0.25, 0.75], "pisw-phase"),
                                                exponent=self._pick([1, -1, 3], "pisw-exp")).on(a, b)
             g = self._pick([cirq.CNOT, cirq.CZ, cirq.SWAP, cirq.ISWAP, cirq.ISWAP ** -1], "clifford-2q")
